@@ -282,3 +282,40 @@ FUNCTIONAL_MANY = {
         loops={1: MANY_FUNCTIONAL_OUTER, 2: MANY_FUNCTIONAL_INNER},
     ),
 }
+
+
+# ----------------------------------------------------------------------------- alternative sidecars
+# Loop invariants are written for one statement skeleton of a kernel (cv/kvc/kernels_check.skeleton).  When a kernel is
+# restructured, a maintainer of the contracts adds the invariants of the new form here, keyed by the new skeleton; the
+# requires / ensures (what the property needs) stay those of the primary contract.  First entry: the canonical two-pointer
+# form of the intersection kernel, `while left_ptr < left_len and right_ptr < right_len:` with both heads loaded at the top
+# of the iteration (refactorings/RP_1).
+ALTERNATIVES = {
+    "set_intersect_merge_np": [
+        dict(
+            skeleton="@RP_1",  # resolved to the hash recorded in contracts/kernel_skeletons.json under this key
+            FUNCTIONAL={
+                1: [
+                    "left_len == len(left_array) and right_len == len(right_array)",
+                    "0 <= left_ptr and left_ptr <= left_len and 0 <= right_ptr and right_ptr <= right_len",
+                    "len(result) == min(left_len, right_len)",
+                    "0 <= result_len and result_len <= left_ptr and result_len <= right_ptr",
+                    "inc(result, result_len)",
+                    "forall(t, 0, result_len, ((left_ptr < left_len) >> (result[t] < left_array[left_ptr])) and ((right_ptr < right_len) >> (result[t] < right_array[right_ptr])))",
+                    "forall(t, 0, result_len, mem(result[t], left_array, left_ptr) and mem(result[t], right_array, right_ptr))",
+                    "forall(i, 0, left_ptr, forall(j, 0, right_ptr, (left_array[i] == right_array[j]) >> mem(left_array[i], result, result_len)))",
+                    "forall(i, 0, left_ptr, (right_ptr < right_len) >> (left_array[i] < right_array[right_ptr]))",
+                    "forall(j, 0, right_ptr, (left_ptr < left_len) >> (right_array[j] < left_array[left_ptr]))",
+                ]
+            },
+            SAFETY={
+                1: [
+                    "left_len == len(left_array) and right_len == len(right_array)",
+                    "0 <= left_ptr and left_ptr <= left_len and 0 <= right_ptr and right_ptr <= right_len",
+                    "len(result) == min(left_len, right_len)",
+                    "0 <= result_len and result_len <= left_ptr and result_len <= right_ptr",
+                ]
+            },
+        )
+    ],
+}
